@@ -65,6 +65,12 @@ def seq_enumerated():
     T('order-string-global', 'write(gs[0]); gs = "new"; write(gs[1]); sleep(gs.length);')
     T('order-idx-global', 'ga[g % 3] = bump(1); sleep(ga[0]); sleep(ga[1]); sleep(ga[2]);')
     T('order-byteidx-global', 'gba[g % 3] = bf(x is byte); write(gba[0]); write(gba[1]);')
+    T('order-bare-global-index-byte', "gi = 1; gba[gi] = nxtb(x); write(gba[0]); write(gba[1]); write(gba[2]); sleep(gi);", extra="int gi = 0;\nbyte nxtb(int v) { gi = v; return 'n'; }\n")
+    T('order-bare-global-index-int', "gi = 2; ga[gi] = nxti(x); sleep(ga[0]); sleep(ga[1]); sleep(ga[2]); sleep(gi);", extra="int gi = 0;\nint nxti(int v) { gi = v; return 77; }\n")
+    T('order-bare-global-index-bool', "gi = 3; gfa[gi] = nxto(x); sleep(gfa[3] is int); sleep(gfa[0] is int); sleep(gi);", extra="int gi = 0;\nbool nxto(int v) { gi = v; return false; }\n")
+    T('order-bare-global-index-compound', "gi = 0; ga[gi] += nxti(x); gba[gi] += nxtb(y); sleep(ga[0]); write(gba[0]); sleep(gi);", extra="int gi = 0;\nint nxti(int v) { gi = v; return 77; }\nbyte nxtb(int v) { gi = v; return 1; }\n")
+    T('order-bare-global-index-read', "gi = 1; sleep(ga[gi] + nxti(x)); write(gba[gi]); sleep(nxti(2) * ga[gi]);", extra="int gi = 0;\nint nxti(int v) { gi = v % 3; if (gi < 0) { gi = 0; } return 7; }\n")
+    T('order-local-array-global-index', "byte[] buf = ['a', 'b', 'c']; int canary = 12345; gi = 2; buf[gi] = nxtb(x); write(buf); sleep(canary);", extra="int gi = 0;\nbyte nxtb(int v) { gi = v; return 'n'; }\n")
     # short circuit
     T('short-and', "if (note('a', x > 0) and note('b', y > 0)) { write('T'); } else { write('F'); }")
     T('short-or', "if (note('a', x > 0) or note('b', y > 0)) { write('T'); } else { write('F'); }")
@@ -419,6 +425,20 @@ def time_enumerated(tier='quick'):
         T('value-defeat-' + h, "try { sleep(!dv(x)); sleep(!dv(y)); } %s { write('h'); } write('.');" % h)
         T('handler-try-' + h, "try { !truth_is_defeat(x > 0); write('b'); } %s { write('h'); try { !truth_is_defeat(y > 0); write('B'); } undo { write('U'); } } write('.');" % h)
         T('stop-frame-' + h, "int a = x; byte b = 'q'; try { int c = y; a += c; !d1(a); write('n'); } %s { write(b); sleep(a); } sleep(a); write('.');" % h)
+    for h in ('undo', 'stop'):
+        # a loop with break / continue INSIDE the try body, defeat afterwards in the same body
+        T('loop-in-try-' + h, "try { for (int i = 0; i < 3; i += 1) { if (i == x) { break; } if (i == y) { continue; } write('a' + i); } !truth_is_defeat(y > 0); write('n'); } %s { write('h'); } write('.');" % h)
+        T('while-in-try-call-' + h, "try { int i = 0; while (true) { i += 1; if (i > x %% 3) { break; } write('w'); } !d0(y); write('n'); } %s { write('h'); } write('.');" % h)
+        T('loop-in-try-in-loop-' + h, "for (int k = 0; k < 2; k += 1) { try { for (int i = 0; i < 2; i += 1) { if (i == x) { continue; } if (k == y) { break; } write('a' + i); } !truth_is_defeat(k == 1); write('n'); } %s { write('h'); } } write('.');" % h)
+    # the same defeat function used first under try/undo in the entry point and later under try/stop in another you-function
+    # (function bodies are generated in order of first reference)
+    for first, second in itertools.product(['undo', 'stop'], repeat=2):
+        T('shared-defeat-%s-then-%s' % (first, second),
+          "try { write('a'); !d0(x); write('b'); } %s { write('c'); } @later(y); write('.');" % first,
+          extra="empty @later(int v) { try { write('A'); !d1(v); write('B'); } %s { write('C'); } }\n" % second)
+        T('shared-own-defeat-%s-then-%s' % (first, second),
+          "try { write('a'); !mine(x); write('b'); } %s { write('c'); } @later(y); @later(x); write('.');" % first,
+          extra="empty !mine(int a) { write('m'); !truth_is_defeat(a > 1); write('M'); }\nempty @later(int v) { try { write('A'); !mine(v); write('B'); } %s { write('C'); } }\n" % second)
     # preempt varieties
     T('preempt-two', "try { preempt { write('1'); x = 0; } preempt { write('2'); y = 0; } !truth_is_defeat(x > 0 or y > 0); write('n'); } undo { write('u'); } write('.');")
     T('preempt-nested', "try { preempt { write('1'); preempt { write('2'); y = 0; } x = 0; } !truth_is_defeat(x > 0); !truth_is_defeat(y > 0); write('n'); } undo { write('u'); } write('.');")
@@ -716,6 +736,16 @@ def fault_templates():
         T('idx-arg-string-%d' % n, "empty @is_you(int i, string s) { write('p'); write(s[i]); write('q'); }\n", s=[n])
         T('idx-arg-strings-%d' % n, "empty @is_you(int i, const string[] xs) { write('p'); write(xs[i]); write('q'); }\n", xs=[1] * n)
     T('idx-compound-byte', mark + "empty @is_you(int i) { byte[] v = ['a', 'b', 'c']; write('p'); v[mi('i', i)] += mk('r'); write('q'); write(v[1]); }\n")
+    for el, lit in (('int', '[1, 2, 3]'), ('byte', "['a', 'b', 'c']"), ('bool', '[true, false, true]')):
+        obs = {'int': 'sleep(%s);', 'byte': 'write(%s);', 'bool': 'sleep((%s) is int);'}[el]
+        val = {'int': '7', 'byte': "'z'", 'bool': 'false'}[el]
+        for k, ix in (('len', '3'), ('last', '2'), ('past', '4'), ('neg', '(-1)'), ('folded', '(1 + 2)'), ('constvar', 'KL')):
+            T('idx-const-%s-stack-%s' % (k, el), "const int KL = 3;\nempty @is_you(int x) { %s[] v = %s; int canary = 4321; write('p'); %s v[%s] = %s; write('q'); sleep(canary); }\n" % (el, lit, obs % ('v[%s]' % ix), ix, val))
+            T('idx-const-%s-global-%s' % (k, el), "const int KL = 3;\n%s[] gv = %s;\nint after = 99;\nempty @is_you(int x) { write('p'); %s gv[%s] = %s; write('q'); sleep(after); }\n" % (el, lit, obs % ('gv[%s]' % ix), ix, val))
+            T('idx-const-%s-constarr-%s' % (k, el), "const int KL = 3;\nconst %s[] gv = %s;\nempty @is_you(int x) { write('p'); %s write('q'); }\n" % (el, lit, obs % ('gv[%s]' % ix)))
+    T('idx-const-zero-length', "int z[0];\nempty @is_you(int x) { int[] e = []; write('p'); if (x > 0) { sleep(e[0]); } z[0] = 1; write('q'); }\n")
+    T('idx-const-string-len', "empty @is_you(int x) { write('p'); if (x > 0) { write(\"abc\"[3]); } write(\"abc\"[2]); string s = \"xy\"; write(s[2]); write('q'); }\n")
+    T('idx-const-fixed-global', "int gz[4];\nempty @is_you(int x) { write('p'); gz[3] = 1; if (x > 0) { gz[4] = 2; } write('q'); }\n")
     T('idx-string-literal', "empty @is_you(int i) { write('p'); write(\"hello\"[i]); write('q'); }\n")
     T('idx-string-var', "empty @is_you(int i, int k) { string s = \"ab\"; if (k > 0) { s = \"wxyz\"; } write('p'); write(s[i]); write('q'); }\n")
     T('idx-string-bytes', "empty @is_you(int i) { const byte[] b = \"hey\" is byte[]; write('p'); write(b[i]); write('q'); }\n")
@@ -807,6 +837,10 @@ def alloc_templates():
     T('bool-assign-temps', 'bool[] a = [true, false, true]; a[1] = x > y; sleep(a[1] is int); sleep(a[2] is int);')
     T('recursion', 'sleep(r(x % 3));', extra='int r(int n) { int[] a = [n, 2]; if (n <= 0) { return a[1]; } return r(n - 1) + a[0]; }\n')
     T('defeat-funcs', "try { !d1(x); write('n'); } stop { write('s'); } int[] z = [1, 2]; sleep(z[1]);", extra="empty !d0(int a) { int[] t = [a, a]; !truth_is_defeat(t[1] > 2); }\nempty !d1(int a) { byte[] b = [1, 2, 3]; !d0(a + b[0]); }\n")
+    T('global-index-store', "byte[] buf = ['a', 'b', 'c']; int canary = 12345; gi = 2; buf[gi] = nxtb(x); write(buf); sleep(canary);", extra="int gi = 0;\nbyte nxtb(int v) { gi = v; return 'n'; }\n")
+    T('global-index-store-int', "int[] buf = [1, 2, 3]; gi = 1; buf[gi] = nxti(x); sleep(buf[1]); sleep(gi);", extra="int gi = 0;\nint nxti(int v) { gi = v; return 9; }\n")
+    T('byte-deepest-slot', "byte[] a = [1, 2, 3]; byte b = x is byte; bool t = y > 0; write(b); sleep(t is int); write(a[2]);")
+    T('byte-deepest-callee', "byte[] a = [1, 2, 3]; write(low(x)); write(a[2]);", extra="byte low(int v) { int w = v * 2; byte r = w is byte; return r; }\n")
     T('args-array', 'xs[0] = 7; int[] a = [xs[0], xs[1]]; sleep(a[0] + a[1]);', sig='int[] xs', xs=2)
     T('spec', 'int[] a = [1, 2]; sleep(h(x) ?? y); sleep(a[1]);', extra='int h(int v) { int[] t = [v, v, v]; return t[2]; }\n')
     return out
